@@ -34,6 +34,25 @@ class El(object):
         return "El(%d,%d)" % (self.k, self.p)
 
 
+class Rec(El):
+    """like El, but every two records compare equal and hash alike (a permissive __eq__)"""
+    __slots__ = ()
+
+    def __eq__(self, other):
+        return isinstance(other, Rec)
+
+    def __ne__(self, other):
+        return not isinstance(other, Rec)
+
+    def __hash__(self):
+        return 7
+
+
+EQ = {"eq1": [1, True, 1.0], "eq0": [0, False, 0.0]}     # key 0/1/2 -> equal (==) values of different types
+TYPE_KEY = {int: 0, bool: 1, float: 2}
+KIND = ["obj"]                                             # element kind of the cell being run
+
+
 class L1(Exception):
     pass
 
@@ -49,7 +68,11 @@ class Unlisted(Exception):
 def ksync(e):
     if e is None:
         return 1
-    return e.k if isinstance(e, El) else e
+    if isinstance(e, El):
+        return e.k
+    if KIND[0] in EQ:
+        return TYPE_KEY[type(e)]         # 1 / True / 1.0 are equal; the key function tells them apart
+    return e
 
 
 def msync(e):
@@ -85,6 +108,10 @@ def elements(cell):
             out.append(None)
         elif cell["ek"] == "int":
             out.append(k)
+        elif cell["ek"] in EQ:
+            out.append(EQ[cell["ek"]][k])
+        elif cell["ek"] == "rec":
+            out.append(Rec(k, p))
         else:
             out.append(El(k, p))
     return out
@@ -113,7 +140,9 @@ def enc(e):
         return [-1, 0]
     if isinstance(e, El):
         return [e.k, e.p]
-    if isinstance(e, int):
+    if KIND[0] in EQ and type(e) in TYPE_KEY:
+        return [TYPE_KEY[type(e)], 0]
+    if type(e) is int:
         return [e, 0]
     return ["?", repr(e)]
 
@@ -131,6 +160,8 @@ def outcome(thunk, shape):
         if shape == "two":
             yes, no = v
             return ["val2", [enc(e) for e in yes], [enc(e) for e in no]]
+        if shape == "ints":             # amap's results are the function's answers, not elements
+            return ["val", [[x, 0] if type(x) is int else ["?", repr(x)] for x in v]]
         if shape == "const":
             return ["val", [[7, 0]]] if v == ("ok", 3) else ["odd", repr(v)]
         return ["val", [enc(e) for e in v]]
@@ -141,6 +172,7 @@ def outcome(thunk, shape):
 def run_cell(cell):
     """returns (got by the helper, got by the built-in or None)"""
     h, fk = cell["h"], cell["fk"]
+    KIND[0] = cell["ek"]
     elems = elements(cell)
     afn = {"none": None, "plain": kplain, "block": kblock}.get(fk)
     sfn = None if fk == "none" else ksync
@@ -209,6 +241,7 @@ def run_cell(cell):
         shape = "list"
         if h == "amap":
             f = mplain if fk == "plain" else mblock
+            shape = "ints"
             thunk, ref = (lambda: tools.amap(f, it())), (lambda: list(map(msync, it())))
         elif h == "afilter":
             thunk, ref = (lambda: tools.afilter(afn, it())), (lambda: list(filter(sfn, it())))
